@@ -311,6 +311,9 @@ EXTRACT_NATIVE = {"kind": "native", "crate": "clock-bound-d", "units": ["d_extra
 NOW_GRP = {"kind": "kani", "crate": "clock-bound-shm", "units": ["shm_now"], "modpath": "verif_now",
            "harnesses": [{"name": "c12_now_reads_realtime_then_monotonic", "file": "harness/clock-bound-shm/verif_now.rs", "replayable": False,
                           "tier": "quick", "timeout": 600}]}
+CLOCK_GRP = {"kind": "kani", "crate": "clock-bound-shm", "units": ["shm_now"], "modpath": "verif_now", "c_lib": "harness/clock-bound-shm/clock_model.c",
+             "harnesses": [{"name": "c12_clock_gettime_safe_is_one_system_call", "file": "harness/clock-bound-shm/verif_now.rs", "replayable": False,
+                            "tier": "quick", "timeout": 600}]}
 
 
 def compute_groups(pattern, with_now=False):
@@ -322,6 +325,7 @@ def compute_groups(pattern, with_now=False):
     ]
     if with_now:
         g.append(NOW_GRP)   # the public wrapper now(): both clocks read, in order, for every record
+        g.append(CLOCK_GRP)
     g.append(compute_native([pattern[:3]]))
     return g
 
@@ -601,6 +605,7 @@ PROPS = {
         "groups": [
             {"kind": "kani", "crate": "clock-bound-shm", "units": ["shm_now"], "modpath": "verif_now",
              "harnesses": [sh("c12_now_reads_realtime_then_monotonic", "harness/clock-bound-shm/verif_now.rs", replayable=False)]},
+            CLOCK_GRP,
             dict(PGRP, harnesses=[{"name": "c13_poller_iteration", "file": POL, "replayable": False, "tier": "quick", "timeout": 900}]),
             {"kind": "verus", "gen": "compute", "obligations": [r"C05\.lemma\.monotone", r"C05\.compute\.exact"], "rlimit": 30, "float_dependent": FLOAT_DEP,
              "float_shape_clause": "C05.compute.exact", "float_dependent_if_shape_lost": ["C05.compute.ordered", "C14.compute.no_panic"], "pair": COMPUTE_SEARCH},
@@ -620,6 +625,7 @@ PROPS = {
         "groups": [dict(PGRP, harnesses=[{"name": n, "file": POL, "replayable": False, "tier": "quick", "timeout": 900}
                                          for n in ("c13_poller_iteration", "c13_second_poll_does_not_depend_on_the_first", "c13_grace_period_law",
                                                    "c13_starts_outside_grace", "c13_get_tracking_stamps_only_good_answers")]),
+                   dict(DGRP, harnesses=[dh("c13_refid_to_u32_packs_ascii_big_endian")]),
                    PHC_NATIVE],
     },
     "C17": {
